@@ -350,13 +350,107 @@ def casestate_line(script0, dump):
         else:
             i, fo, ra, ar = tok.split(":")
             priv[int(i)] = (fo[7:], ra[5:], ar[4:])
-    out = ["casestate", f[1], dump.topo.show(), f[4], str(alloc), str(len(dump.kinds))]
+    out = ["casestate", f[1], dump.topo.show(), f[4], str(len(dump.nodes))]
+    for i, s in dump.nodes:
+        out += [str(i), s.show()]
+    out += [str(alloc), str(len(dump.kinds))]
     for i, k in enumerate(dump.kinds):
         fo, ra, ar = priv[i]
         out += [k[0].show(), str(k[1]), fo, ra, ar, str(len(k[2]))]
         for n, v in k[2]:
             out += [hexs(n), hexs(v)]
     return " ".join(out)
+
+
+RESTRICT_CPULESS, RESTRICT_MISC, RESTRICT_IO, RESTRICT_BYNODESET, RESTRICT_MEMLESS = 1, 2, 4, 8, 16
+
+
+def numa_layout(root_numa, levels, pus):
+    """synthetic description and NUMA layout of a tree: `root_numa` nodes attached to the
+    machine, levels = [(name, arity, attached numa nodes)], `pus` PUs per lowest object.
+    Returns (description with '_' for ' ', nbpus, [(os index, BS)]): nodes in the order
+    hwloc numbers them (below an object first, then the nodes attached to it)."""
+    desc = ["[numa]"] * root_numa
+    for nm, ar, k in levels:
+        desc.append("%s:%d" % (nm, ar))
+        desc += ["[numa]"] * k
+    desc.append("pu:%d" % pus)
+    nodes = []
+
+    def walk(i, first):
+        if i == len(levels):
+            return pus
+        nm, ar, k = levels[i]
+        tot = 0
+        for _ in range(ar):
+            n = walk(i + 1, first + tot)
+            mask = ((1 << n) - 1) << (first + tot)
+            for _ in range(k):
+                nodes.append(mask)
+            tot += n
+        return tot
+    n = walk(0, 0)
+    for _ in range(root_numa):
+        nodes.append((1 << n) - 1)
+    return "_".join(desc), n, [(i, BS(m)) for i, m in enumerate(nodes)]
+
+
+def rand_numa_topology(rng):
+    r = rng.random()
+    if r < 0.25:
+        a, c, p = rng.choice([(2, 2, 1), (2, 2, 2), (3, 2, 1), (4, 1, 2), (2, 3, 2)])
+        d = "node:%d_core:%d_pu:%d" % (a, c, p)
+        per = c * p
+        return d, a * per, [(i, BS(((1 << per) - 1) << (i * per))) for i in range(a)]
+    names = ["group", "pack", "core"]
+    depth = rng.randint(1, 3)
+    start = rng.randint(0, 3 - depth)
+    while True:
+        levels = [(names[start + i], rng.choice([2, 2, 3]), rng.choice([0, 1, 1, 2])) for i in range(depth)]
+        root = rng.choice([0, 0, 1])
+        pus = rng.choice([1, 2, 3])
+        n = pus
+        for _, ar, _ in levels:
+            n *= ar
+        if n <= 24 and root + sum(k for _, _, k in levels) > 0 and any(k for _, _, k in levels):
+            return numa_layout(root, levels, pus)
+
+
+def numa_case(rng, name):
+    """registrations on a topology with several NUMA nodes (at one or several levels), then
+    hwloc_topology_restrict with every flag combination: by cpuset (REMOVE_CPULESS, ADAPT_*),
+    by nodeset (alone: no PU goes; with REMOVE_MEMLESS: PUs whose local nodes are all dropped
+    go, and the kinds have to follow), invalid combinations"""
+    desc, nbpus, nodes = rand_numa_topology(rng)
+    lines = ["case %s %s %s %d %s" % (name, desc, BS((1 << nbpus) - 1).show(), len(nodes),
+                                      " ".join("%d %s" % (i, s.show()) for i, s in nodes))]
+    pieces = [s for _, s in nodes]
+    friendly = rng.random() < 0.5
+    for j in range(rng.randint(2, 5)):
+        s = rand_set(rng, nbpus, pieces)
+        pieces.append(s)
+        lines.append(reg_line(s, 3 * j + 1 if friendly else rng.choice(FORCED), 0, rand_infos(rng)))
+    for _ in range(rng.randint(1, 3)):
+        r = rng.random()
+        if r < 0.45:
+            ns = rng.getrandbits(len(nodes)) | (rng.getrandbits(len(nodes)) if rng.random() < 0.5 else 0)
+            if rng.random() < 0.1:
+                ns |= 1 << (len(nodes) + 3)
+            fl = RESTRICT_BYNODESET | rng.choice([RESTRICT_MEMLESS, RESTRICT_MEMLESS, RESTRICT_MEMLESS, 0]) | rng.choice([0, 0, RESTRICT_MISC, RESTRICT_IO, RESTRICT_MISC | RESTRICT_IO])
+            lines.append("restrict %s %d" % (BS(ns).show(), fl))
+        elif r < 0.85:
+            fl = rng.choice([0, RESTRICT_CPULESS, RESTRICT_CPULESS, RESTRICT_MISC, RESTRICT_IO, RESTRICT_CPULESS | RESTRICT_MISC | RESTRICT_IO])
+            lines.append("restrict %s %d" % (BS(rng.getrandbits(nbpus) | (rng.getrandbits(nbpus) if rng.random() < 0.6 else 0)).show(), fl))
+        else:
+            fl = rng.choice([RESTRICT_BYNODESET | RESTRICT_CPULESS, RESTRICT_MEMLESS, RESTRICT_MEMLESS | RESTRICT_CPULESS, 32, 8 | 16 | 64, 1 << 20])
+            lines.append("restrict %s %d" % (BS(rng.getrandbits(4) | 1).show(), fl))
+        for q in rng.sample(pieces, min(3, len(pieces))):
+            lines.append("getby %s 0" % q.show())
+        if rng.random() < 0.4:
+            lines.append(reg_line(rand_set(rng, nbpus, pieces), rng.choice(FORCED), 0, rand_infos(rng)))
+        if rng.random() < 0.15:
+            lines.append(rng.choice(["dup", "xml"]))
+    return lines
 
 
 def malformed_case(rng, name, nbpus=8):
@@ -405,6 +499,7 @@ class Dump:
     def __init__(self):
         self.nr = None
         self.topo = None
+        self.nodes = []       # (os index, BS) in logical order
         self.kinds = []       # (BS, eff, [(name,value)])
         self.priv = None
 
@@ -432,6 +527,11 @@ def parse_steps(script, transcript):
         f = l.split()
         d.nr = int(f[0][3:])
         d.topo = BS.parse(f[1][5:])
+        d.nodes = []
+        if len(f) > 2 and f[2].startswith("nodes=") and f[2] != "nodes=-":
+            for it in f[2][6:].split(","):
+                i, s = it.split("=")
+                d.nodes.append((int(i), BS.parse(s)))
         while True:
             l = nxt()
             if l is None:
@@ -502,8 +602,7 @@ def spec_check(script, transcript, stats=None):
             bad.append(("homogeneous", "HWLOC_CPUKINDS_HOMOGENEOUS=%s but %d kinds" % (f0[3], prev.nr)))
         steps = [steps[0], ("loaded", "loaded rc=0 err=OK", prev)] + steps[1:]
     else:
-        nbpus = int(script[0].split()[2])
-        topo = BS((1 << nbpus) - 1)
+        topo = prev.topo
         if prev.nr != 0:
             return [("initial-state", "no cpukinds expected right after loading a synthetic topology")]
     adopted = False
@@ -597,16 +696,40 @@ def spec_check(script, transcript, stats=None):
                     forced_reliable = False
         elif op == "restrict":
             s = BS.parse(f[1])
-            t2 = topo.inter(s)
-            if t2.empty():
-                if rc != -1:
-                    bad.append(("restrict", "%s: restricting to nothing must fail" % where))
+            fl = int(f[2]) if len(f) > 2 else 0
+            bynode = fl & RESTRICT_BYNODESET
+            invalid = (fl & ~31) or (bynode and fl & RESTRICT_CPULESS) or (not bynode and fl & RESTRICT_MEMLESS) \
+                or (not bynode and topo.inter(s).empty()) \
+                or (bynode and not any(s.intersects(BS(1 << i)) for i, _ in prev.nodes))
+            if invalid:
+                if (rc, err) != (-1, "EINVAL"):
+                    bad.append(("restrict-einval", "%s: invalid restrict arguments must give EINVAL, got %s" % (where, res)))
                 changed = False
             elif rc != 0:
-                bad.append(("restrict", "%s: failed: %s" % (where, res)))
+                # refusing to drop every PU / every NUMA node is legitimate
+                if err != "EINVAL":
+                    bad.append(("restrict", "%s: failed: %s" % (where, res)))
                 changed = False
             else:
-                topo = t2
+                # the topology cpuset reported by the implementation after the operation
+                if not d.topo.subset(topo):
+                    bad.append(("topo", "%s: restrict enlarged the root cpuset" % where))
+                if not bynode and d.topo != topo.inter(s):
+                    bad.append(("topo", "%s: root cpuset %s, expected %s" % (where, d.topo.show(), topo.inter(s).show())))
+                if bynode and not fl & RESTRICT_MEMLESS and d.topo != topo:
+                    bad.append(("topo", "%s: a nodeset restrict without REMOVE_MEMLESS must keep every PU" % where))
+                if bynode and fl & RESTRICT_MEMLESS:
+                    # PUs all of whose local NUMA nodes are dropped (or that have none) disappear
+                    kept = EMPTY
+                    for i, ns in prev.nodes:
+                        if s.intersects(BS(1 << i)):
+                            kept = kept.union(ns)
+                    if d.topo != topo.inter(kept):
+                        bad.append(("topo", "%s: root cpuset %s, expected %s (PUs below kept NUMA nodes)" % (where, d.topo.show(), topo.inter(kept).show())))
+                bump("restrict_flags_%d" % (fl & 25))
+                if bynode and d.topo != topo:
+                    bump("restrict_bynodeset_removed_pus")
+                topo = d.topo
                 for r in regs:
                     r[0] = r[0].inter(topo)
         elif op in ("dup", "xml", "rank", "adopt"):
